@@ -220,7 +220,7 @@ def cases(tier):
     return cs
 
 
-OPTS = {'quick': dict(max_paths=30000, budget_s=280), 'thorough': dict(max_paths=300000, budget_s=1500)}
+OPTS = {'quick': dict(max_paths=30000, budget_s=900), 'thorough': dict(max_paths=300000, budget_s=1500)}
 
 
 def body(I, case):
